@@ -294,6 +294,12 @@ func (fr *Frame) applyContract(st *State, ins ssa.Instruction, fc *FuncContract,
 	}
 	pre := st.clone()
 	cf.entry = pre
+	for _, ac := range fc.Ats {
+		if ac.Kind == "bind" && ac.Sort != "" {
+			// internal ghost bindings of the callee are existential for the caller
+			cf.names[ac.Name] = sortToVal(ac.Sort, r.facts.Fresh("cb_"+ac.Name, specSort(ac.Sort)))
+		}
+	}
 	for _, en := range fc.Entry {
 		v, err := cf.eval(pre, en.Expr, nil)
 		if err != nil {
@@ -320,6 +326,13 @@ func (fr *Frame) applyContract(st *State, ins ssa.Instruction, fc *FuncContract,
 	}
 	if fc.Flags["blocking"] != nil {
 		fr.blockingCallAt(st, ins, name, fc, c)
+	} else if !fc.Extern && fc.Flags["bounded"] == nil && fc.Flags["nonblocking"] == nil {
+		// a module callee that is not itself under a bounded-wait contract may block
+		site := fr.callAnchor(c, name)
+		if site == "" {
+			site = "call " + name
+		}
+		fr.boundedWait(st, ins, site, "false")
 	}
 	for _, which := range fc.Flags["maybe_calls"] {
 		if v, ok := cf.names[which]; ok {
@@ -406,6 +419,9 @@ func (fr *Frame) callAnchor(c *ssa.CallCommon, name string) string {
 			cc = &x.Call
 		}
 		if cc == c && len(names) > 0 {
+			if fr.curRet != "" {
+				return names[0] + "@" + fr.curRet
+			}
 			return names[0]
 		}
 	}
@@ -545,6 +561,9 @@ func (fr *Frame) havocHeapExcept(st *State, escaped map[string]bool) {
 	for _, k := range sortedKeys(r.memSort) {
 		switch {
 		case strings.HasPrefix(k, "F|"), strings.HasPrefix(k, "C|"), strings.HasPrefix(k, "E|"), strings.HasPrefix(k, "MD|"), strings.HasPrefix(k, "MV|"), strings.HasPrefix(k, "G|"):
+			if r.eng.immutableKey(k) {
+				continue
+			}
 			r.havocKey(st, k)
 			if ks := keep[k]; len(ks) > 0 {
 				t := st.mem[k]
@@ -792,13 +811,14 @@ func (fr *Frame) spawn(st *State, in *ssa.Go) {
 		}
 		for i, fv := range callee.FreeVars {
 			if i < len(binds) {
-				cf.names[fv.Name()] = binds[i]
+				cf.names["&"+fv.Name()] = binds[i]
 				cf.vals[fv] = binds[i]
 			}
 		}
 		cf.entry = st
 		for i, rq := range fc.Requires {
 			if hasTag(rq.Tags, "nospawn") {
+				r.assumes["spawn precondition of "+name+" not checked at the go statement (global invariant / documented precondition): "+rq.Text] = true
 				continue
 			}
 			cf.requireExpr(st, "spawn-pre", fr.oblFunc(), fr.oblName(fr.anchorName(in, "go")+":"+name+":"+rq.Label(fmt.Sprintf("#%d", i+1))), rq.Expr, nil, rq.Tags, in.Pos(), "spawn precondition of "+name+": "+rq.Text)
@@ -856,9 +876,8 @@ type frameDecl struct {
 	whole bool
 }
 
-func (fr *Frame) frameDecls() (decls []frameDecl, skipHeap bool) {
+func (fr *Frame) frameDecls(entry *State) (decls []frameDecl, skipHeap bool) {
 	r := fr.r
-	entry := fr.entry
 	addObj := func(p Val) {}
 	var addObjRec func(p Val, depth int)
 	addObjRec = func(p Val, depth int) {
@@ -973,7 +992,11 @@ func (fr *Frame) checkFrame(st *State, ret *ssa.Return) {
 	if fr.contract == nil || !fr.contract.HasModifies {
 		return
 	}
-	decls, skipHeap := fr.frameDecls()
+	decls, skipHeap := fr.frameDecls(fr.entry)
+	// designators are also read in the final state: a guarded variable may have been replaced by
+	// another goroutine before this function acquired its lock (interference is not this function's write)
+	d2, _ := fr.frameDecls(st)
+	decls = append(decls, d2...)
 	entry := fr.entry
 	h0 := r.get(entry, "g|$heap")
 	var tags []string
@@ -981,8 +1004,11 @@ func (fr *Frame) checkFrame(st *State, ret *ssa.Return) {
 		tags = append(tags, m.Tags...)
 	}
 	for _, k := range sortedKeys(st.mem) {
+		if strings.HasPrefix(k, "B:") {
+			continue
+		}
 		now := st.mem[k]
-		was := r.get(entry, k)
+		was := r.get(st, "B:"+k)
 		if now == was {
 			continue
 		}
